@@ -11,7 +11,7 @@ class _RL(dict):
 UNIT_RLIMIT = _RL({"div_small": 80, "mul_redc": 80})      # unit -> --rlimit (Verus default is 10; 5x head-room over the measured maximum)
 UNIT_TIMEOUT = {"knuth": 1500, "addmul": 900, "mul_redc": 1200}     # unit -> seconds
 UNIT_EXPECT = {       # unit -> minimum number of verified functions on the unchanged tree (vacuity guard)
-    "core": 31, "add": 29, "kernels": 79, "addmul": 71, "addmul_n": 73, "mul": 51, "divd": 45, "div_small": 235, "knuth": 145, "mul_redc": 126, "basics": 22, "pow": 38, "divw": 54, "modular": 70, "spigot": 44, "gcd": 24, "forward": 57, "invring": 47, "bitlen": 81, "shifts": 131, "recip_table": 2, "gcdext": 67, "gcdw": 36, "bits": 78, "conv": 44, "lehmer": 38, "jebelean": 92, "logs": 27, "forward_shift": 81, "fmt_consts": 5, "rotate": 27, "popcount": 29, "conv_slice": 54, "conv_prim": 53, "absdiff": 15, "frombase": 71, "byteslice": 66,
+    "core": 31, "add": 29, "kernels": 79, "addmul": 71, "addmul_n": 73, "mul": 51, "divd": 45, "div_small": 235, "knuth": 145, "mul_redc": 126, "basics": 22, "pow": 38, "divw": 54, "modular": 70, "spigot": 44, "gcd": 24, "forward": 57, "invring": 47, "bitlen": 81, "shifts": 131, "recip_table": 2, "gcdext": 67, "gcdw": 36, "bits": 78, "conv": 44, "lehmer": 38, "jebelean": 92, "logs": 27, "forward_shift": 81, "fmt_consts": 5, "rotate": 27, "popcount": 29, "conv_slice": 54, "conv_prim": 53, "absdiff": 15, "frombase": 71, "byteslice": 72,
 }
 
 COMMON_TRUST = [
@@ -196,7 +196,8 @@ PROPS = {
         level="other",
         level_text="Verus proves for ALL widths and byte strings of ANY length the two decoders everything byte-oriented funnels into, try_from_le_slice and try_from_be_slice (unit byteslice): Some(v) exactly when the string is at most "
                    "BYTES = ceil(BITS/8) long and its base-256 value (le: first byte least significant; be: last byte least significant) is < 2^BITS, v being that value and canonical; no panic, no overflow in the limb accumulation, and the raw "
-                   "8-byte reads of the full-limb fast path stay inside the slice (their bounds are proof obligations). Kani proves, per width, that every byte encoder emits exactly the base-256 digits in the stated order and length "
+                   "8-byte reads of the full-limb fast path stay inside the slice (their bounds are proof obligations); the panicking forms from_le_slice / from_be_slice / from_le_bytes / from_be_bytes follow; to_be_bytes is proved to be the reversal "
+                   "of to_le_bytes (so its bytes are the digits most significant first, relative to the assumed layout contract of to_le_bytes). Kani proves, per width, that every byte encoder emits exactly the base-256 digits in the stated order and length "
                    "(fixed, vector, borrowed, trimmed, copy-into-buffer incl. frame), the same acceptance condition of the decoders (all strings up to BYTES+8 bytes), and the round trips",
         level_note="encoders per width only (12 widths incl. 60, 63 and 72 where BYTES%8 and BITS%64 disagree): they are raw-pointer views of the limb array, outside Verus; normalisation N20 replaces the unaligned raw read "
                    "`u64::from_le_bytes(unsafe { *bytes.as_ptr().add(off).cast() })` (and the from_be_bytes / `end.sub(..)` form) by a callee that REQUIRES the read to be in bounds and is ASSUMED to return the value of the eight bytes "
